@@ -10,7 +10,7 @@ m=json.load(open('$d/meta.json'))
 print(' '.join(sorted(set(re.findall(r'C\d\d', ' '.join(m['caught_by']))))))")
   prof=release; trace=; grep -q "dev-profile" $d/meta.json && { prof=dev; trace=1; }
   qs=$(python3 -c "import json;print(json.load(open('$d/meta.json')).get('quick_seed',''))")
-  out=$(VERIF_SEED=${qs:-${VERIF_SEED:-1}} VP_TRACE=$trace VP_SLOT=${VP_SLOT:-3} VP_PROFILE=$prof tools/try_seed2.sh /verif/$d/patch.diff $ids 2>&1)
+  out=$(env ${trace:+VP_TRACE=1} VERIF_SEED=${qs:-${VERIF_SEED:-1}} VP_SLOT=${VP_SLOT:-3} VP_PROFILE=$prof tools/try_seed2.sh /verif/$d/patch.diff $ids 2>&1)
   for id in $ids; do
     if echo "$out" | grep -q "== $id rc=1"; then echo "$s $id CAUGHT"; else echo "$s $id MISSED"; fi
   done
